@@ -32,11 +32,18 @@ def scratch(name):
 
 # ---------------------------------------------------------------------------- Go harness
 def build_harness(race=False):
-    """(Re)build the conformance harness test binary against /repo's current working tree."""
+    """(Re)build the conformance harness test binary against /repo's current working tree.
+    The binary is private to this invocation (a later build for another check must not replace a binary that is
+    still being executed) and removed at exit. Builds are serialised by a lock that bin/try_mutant and
+    bin/seeded_sweep hold while a seeded change is applied to /repo, so a check that starts meanwhile waits
+    instead of building the changed tree."""
+    import atexit
     os.makedirs(os.path.join(WORK, "bin"), exist_ok=True)
-    out = os.path.join(WORK, "bin", "fdrive.race.test" if race else "fdrive.test")
-    lock = open(os.path.join(WORK, "bin", ".lock"), "w")
-    fcntl.flock(lock, fcntl.LOCK_EX)
+    out = os.path.join(WORK, "bin", f"fdrive.{os.getpid()}" + (".race" if race else "") + ".test")
+    lock = None
+    if not os.environ.get("VERIF_BUILD_LOCK_HELD"):
+        lock = open(os.path.join(WORK, "bin", ".lock"), "w")
+        fcntl.flock(lock, fcntl.LOCK_EX)
     try:
         shutil.copy(os.path.join(REPO, "go.sum"), os.path.join(HARNESS, "go.sum"))
         cmd = ["go1.26", "test", "-c", "-tags", "verif", "-o", out]
@@ -49,7 +56,9 @@ def build_harness(race=False):
             raise Indeterminate("harness build failed:\n" + p.stdout + p.stderr)
         log(f"[build] harness built in {time.time()-t0:.1f}s")
     finally:
-        fcntl.flock(lock, fcntl.LOCK_UN)
+        if lock:
+            fcntl.flock(lock, fcntl.LOCK_UN)
+    atexit.register(lambda: os.path.exists(out) and os.remove(out))
     return out
 
 
@@ -280,7 +289,7 @@ OWNERS = {
     # reason tags of refusals
     "code_used": {"C01"}, "code_unknown": {"C06", "C01"}, "wrong_client": {"C02"}, "redirect_mismatch": {"C02"},
     "code_expired": {"C02", "C07"},
-    "pkce_required": {"C03"}, "pkce_plain_disabled": {"C03"}, "pkce_unexpected_verifier": {"C03"},
+    "pkce_required": {"C03"}, "pkce_plain_disabled": {"C03"}, "pkce_unknown_method": {"C03"}, "pkce_unexpected_verifier": {"C03"},
     "pkce_missing_verifier": {"C03"}, "pkce_malformed_verifier": {"C03"}, "pkce_mismatch": {"C03"},
     "rt_used": {"C04"}, "rt_unknown": {"C06", "C04"}, "rt_expired": {"C07"},
     "rt_scope_missing": {"C05"}, "rt_wrong_client": {"C05"}, "rt_scope_lost": {"C05"}, "rt_aud_lost": {"C05"},
